@@ -402,7 +402,7 @@ func checkC20(c *Ctx, r *Report) {
 		// registered enum validators list exactly the constants of their type
 		for _, e := range []struct{ rule, typ string }{{"security_schema_in", "SecuritySchemeIn"}, {"security_schema_type", "SecuritySchemeType"}} {
 			var listed, sites []string
-			ast.Inspect(fi.Decl, func(n ast.Node) bool {
+			w.inspectRegion(fi, func(n ast.Node) bool {
 				cl, ok := n.(*ast.CallExpr)
 				if !ok || len(cl.Args) != 2 || litString(cl.Args[0]) != e.rule {
 					return true
